@@ -17,15 +17,15 @@ RULE = ('per case 2-6 bundles for a local endpoint, each either clean (no securi
         'acceptance on/off, key store contents and deletion-report request drawn per case. A clean bundle always follows a bad one. '
         'Non-trivial: at least one malformed bundle; distinct = digest of the case descriptors.')
 COMPONENTS = bc.COMPONENTS
-PROBES = tuple('bad.' + name for name in ('wrong-key', 'unknown-kid', 'altered-target', 'altered-target-attached-original', 'unknown-context', 'target-absent', 'dup-param', 'dup-result', 'zero-results',
+PROBES = tuple('bad.' + name for name in ('wrong-key', 'unknown-kid', 'altered-target', 'altered-target-attached-original', 'targets-not-array', 'unknown-context', 'target-absent', 'dup-param', 'dup-result', 'zero-results',
                                            'two-results', 'cose-garbage', 'asb-not-cbor', 'last-of-two-bibs', 'good-bib-bad-bcb', 'bad-bib-good-bcb', 'bitflip')) + (
-    'good.none', 'good.bib', 'good.bcb', 'good.bib+bcb', 'accept.on', 'accept.off', 'probe.recv_exception', 'rpt.security_reason')
+    'good.none', 'good.bib', 'good.bcb', 'good.bib+bcb', 'accept.on', 'accept.off', 'probe.recv_exception', 'rpt.security_reason', 'dest.admin_endpoint')
 ASSUMPTIONS = ['an exception leaving recv_bundle() is a probe; it counts only through its consequence (delivery)',
                'wrapped-key COSE messages are not exercised (pycose fork, see C03)']
 CHUNK = 25
 BUDGET = {'quick': 30, 'thorough': 400}
 
-BAD = ('wrong-key', 'unknown-kid', 'altered-target', 'altered-target-attached-original', 'unknown-context', 'target-absent', 'dup-param', 'dup-result', 'zero-results', 'two-results',
+BAD = ('wrong-key', 'unknown-kid', 'altered-target', 'altered-target-attached-original', 'targets-not-array', 'unknown-context', 'target-absent', 'dup-param', 'dup-result', 'zero-results', 'two-results',
        'cose-garbage', 'asb-not-cbor', 'last-of-two-bibs', 'good-bib-bad-bcb', 'bad-bib-good-bcb', 'bitflip')
 GOOD = ('none', 'bib', 'bcb', 'bib+bcb')
 
@@ -34,8 +34,10 @@ def gen(ch, tier):
     items = []
     for ix in range(1 + ch.pick('nitems', 3)):
         items.append(dict(kind='bad', what=ch.choice('bad', BAD), sec=ch.choice('badsec', ('bib', 'bib', 'bcb')), plen=ch.choice('plen', (1, 9, 40, 0)),
-                          bit=ch.pick('bit', 1 << 16), dreport=ch.coin('dreport', 1, 2), crc=ch.choice('crc', (0, 1, 2))))
-        items.append(dict(kind='good', what=ch.choice('good', GOOD), plen=ch.choice('plen', (1, 9, 40, 0)), dreport=False, crc=ch.choice('crc', (0, 1, 2))))
+                          bit=ch.pick('bit', 1 << 16), dreport=ch.coin('dreport', 1, 2), crc=ch.choice('crc', (0, 1, 2)),
+                          dest=ch.choice('dest', ('dtn://d/app', 'dtn://d/app', 'dtn://d/'))))
+        items.append(dict(kind='good', what=ch.choice('good', GOOD), plen=ch.choice('plen', (1, 9, 40, 0)), dreport=False, crc=ch.choice('crc', (0, 1, 2)),
+                          dest=ch.choice('dest', ('dtn://d/app', 'dtn://d/app', 'dtn://d/'))))
     return dict(scenario='bpsec_malformed', items=items, accept=ch.coin('accept', 1, 2))
 
 
@@ -54,7 +56,7 @@ def build(item, index):
     ''' Returns (encoded bundle, expectation 'deliver'|'reject', plaintext payload). '''
     seqno = C03.seq_code(index)
     flags = rfc9171.FLAG_RPT_DELETION if item['dreport'] else 0
-    pri = dict(flags=flags, crc_type=item['crc'], destination='dtn://d/app', source='dtn://s/', report_to='dtn://rpt/' if item['dreport'] else 'dtn:none',
+    pri = dict(flags=flags, crc_type=item['crc'], destination=item.get('dest', 'dtn://d/app'), source='dtn://s/', report_to='dtn://rpt/' if item['dreport'] else 'dtn:none',
                create_time=820000000000, seqno=seqno, lifetime=3600000)
     plain = bc.body(2000 + index, item['plen'])
     payload = dict(type=1, num=1, flags=0, crc_type=item['crc'], btsd=plain)
@@ -112,6 +114,11 @@ def build(item, index):
             msg[2] = original
             new['results'] = [[(rid, cbor2.dumps(msg))]]
         sec = _asb_edit(sec, attach)
+    elif what == 'targets-not-array':
+        # the first item of the security block (the target list) is not an array: the block cannot be decoded
+        raw = sec['btsd']
+        head = rfc9171.item_end(raw, 0)
+        sec = dict(sec, btsd=cbor2.dumps(item.get('bit', 0) % 24) + raw[head:])
     elif what == 'unknown-context':
         sec = _asb_edit(sec, lambda new: new.update(context_id=99))
     elif what == 'target-absent':
@@ -184,6 +191,8 @@ def _drive(run, plan, har):
     for (ix, item) in enumerate(plan['items']):
         (data, expect, plain) = build(item, ix)
         stats['%s.%s' % (item['kind'], item['what'])] = 1
+        if item.get('dest') == 'dtn://d/':
+            stats['dest.admin_endpoint'] = 1
         (rec, dels, outs) = sc.deliver(har, data)
         if rec['error']:
             stats['probe.recv_exception'] = stats.get('probe.recv_exception', 0) + 1
